@@ -436,6 +436,9 @@ func (a *Aidc) ToAidu() (aidu Aidu) {
 			break
 		}
 
+		if int(each) >= len(decodeAidcTable) {
+			return 0
+		}
 		v := decodeAidcTable[each]
 		aidu <<= 6
 		aidu |= v
